@@ -3,6 +3,7 @@ import Gomjml.Core.InlineTagProofs
 import Gomjml.Core.InlineScan
 import Gomjml.Core.InlineCss
 import Gomjml.Gen.ClassSites
+import Gomjml.Core.ClassAttr
 /-! # C19 — inline CSS is applied completely and touches nothing but style attributes (property theorems only)
 
 Component side, on the byte-exact `HTMLTag` model.  Author-HTML side, on the byte-exact model of the scanner's per-tag step
@@ -144,5 +145,27 @@ example :
     (collect [css]).get [97] = [⟨[99, 111, 108, 111, 114], [114, 101, 100]⟩, ⟨[109, 97, 114, 103, 105, 110], [48]⟩] ∧
     (collect [css]).get [98] = [⟨[99, 111, 108, 111, 114], [114, 101, 100]⟩, ⟨[112, 97, 100, 100, 105, 110, 103], [52, 112, 120]⟩] ∧
     (collect [css]).get [120] = [] := by decide
+
+/-- **`BuildClassAttribute` is "the non-empty parts joined by one blank"**, for every list of own classes and every value of
+    `css-class` (the Go function has a count, a one-class shortcut and a loop with a `first` flag; all three agree with this) -/
+theorem C19_class_attribute_joined (existing : List (List Gomjml.Amp.B)) (css : List Gomjml.Amp.B) :
+    Gomjml.ClassAttr.build existing css = Gomjml.ClassAttr.spec existing css :=
+  Gomjml.ClassAttr.build_spec existing css
+
+/-- **applied completely, component side, from the style sheet text to the style string**: for every list of `mj-style inline`
+    texts, every list of own classes and every `css-class` (bytes of class lists as authors write them: no lead byte of a
+    multi-byte white-space character), `BuildInlineStyleString` of the built class attribute is the declarations of every rule
+    naming one of the component's classes as a lone selector — classes in the order own parts, then `css-class`; per class
+    the rules in source order — and nothing else -/
+theorem C19_component_style_from_sheet (texts existing : List (List Gomjml.Amp.B)) (css : List Gomjml.Amp.B)
+    (he : ∀ c ∈ existing, Gomjml.ClassAttr.tame c) (hc : Gomjml.ClassAttr.tame css) :
+    Gomjml.ClassAttr.inlineStyle (Gomjml.InlineCss.collect texts) (Gomjml.ClassAttr.build existing css) =
+      ((existing ++ [css]).flatMap Gomjml.Lengths.fields).flatMap fun c =>
+        (Gomjml.InlineCss.spec texts c).flatMap Gomjml.ClassAttr.declBytes :=
+  Gomjml.ClassAttr.inlineStyle_build texts existing css he hc
+
+/-- non-vacuity: own class `m`, `css-class="a  b"`, the sheet `.a{x:1} .b{y:2} .a{z:3}` -/
+example : Gomjml.ClassAttr.inlineStyle (Gomjml.InlineCss.collect [[46, 97, 123, 120, 58, 49, 125, 46, 98, 123, 121, 58, 50, 125, 46, 97, 123, 122, 58, 51, 125]])
+    (Gomjml.ClassAttr.build [[109], []] [97, 32, 32, 98]) = [120, 58, 49, 59, 122, 58, 51, 59, 121, 58, 50, 59] := by decide
 
 end Gomjml.Props.C19
